@@ -74,9 +74,12 @@ impl<'a> ResolveScope<'a> {
             .iter()
             .find(|i| i.what.iter().any(|what| what.eq(item)))
             .and_then(|import| {
-                self.scope.iter().find(|m| {
-                    (m.oid.is_some() && m.oid.eq(&import.from_oid)) || m.name.eq(&import.from)
-                })
+                // the module with the imported object identifier takes precedence over a module
+                // that merely has the same name, independent of the order they were loaded in
+                self.scope
+                    .iter()
+                    .find(|m| m.oid.is_some() && m.oid.eq(&import.from_oid))
+                    .or_else(|| self.scope.iter().find(|m| m.name.eq(&import.from)))
             })
     }
 
